@@ -62,7 +62,14 @@ func asString(values ...Value) String {
 	for _, t := range tuples {
 		str[t.at-minAt] = t.char
 	}
-	return String{s: str, offset: minAt, holes: len(str) - n}
+	// Count the holes that remain: the same tuple may have been offered more than once.
+	holes := 0
+	for _, r := range str {
+		if r < 0 {
+			holes++
+		}
+	}
+	return String{s: str, offset: minAt, holes: holes}
 }
 
 // AsString returns String and the empty set as String or false otherwise.
